@@ -141,6 +141,22 @@ def handle (op : String) (args : List Sexp) : R Sexp := do
           match Spec.decodeTbsCert tbs with
           | some c => c.exts.any (fun x => x.oid == e.oid && x.value == .opaque e.content)
           | none => false))))
+  | "spec-cert-object", [cfg, p, k, i, der, kid] => do
+    -- the `Certificate` value: the key identifier it reports against the DER (specification) and
+    -- against the model's `Certificate` (tie)
+    let p ← decParams p
+    let k ← decKey k
+    let i ← decIssuer p k i
+    let der ← der.asBytes
+    let kid ← kid.asBytes
+    let cfg : Config := { crypto := (← cfg.asAtom) != "nocrypto" }
+    let tie : List String :=
+      match issueCertificate cfg sha2 p k i nullSigner with
+      | .ok c => Spec.clause "tie:key-identifier" (c.keyIdentifier sha2 == kid)
+      | _ => ["tie:key-identifier"]
+    match Spec.splitSigned der with
+    | none => pure (failList (["C01:outer-structure"] ++ tie))
+    | some (tbs, _, _) => pure (failList (Spec.c02ObjectClauses tbs kid ++ tie))
   | "spec-csr", [p, k, .list attrs, der] => do
     let p ← decParams p
     let k ← decKey k
